@@ -824,6 +824,8 @@ def run(ctx):
     if not ctx.quick and not os.environ.get("VF_C17_FAMS"):
         real_pools(ctx, recs, schedules)
         selftest(ctx, recs, schedules)
+    elif ctx.quick and not os.environ.get("VF_C17_FAMS"):
+        stress_real_pool(ctx)  # one real pool (about 5 s) even in the quick tier
 
 
 def selftest(ctx, recs, schedules):
@@ -883,6 +885,47 @@ def real_pools(ctx, recs, schedules):
                 check_worker_free(ctx, rec, idx, ("real", W, 1, 0), schedules, base)
                 runs += 1
     ctx.extra["real_spawn_pool_runs"] = runs
+    stress_real_pool(ctx)
+
+
+def stress_real_pool(ctx):
+    """thorough: many utterances, chunk size 1, four real workers busy at the same time -- the only way a race
+    INSIDE the per-item work (e.g. workers sharing a scratch file) can show; output must equal the serial run."""
+    import torch
+
+    from pydrobert.torch import command_line as cl
+
+    d = ctx.subdir("stress_pool")
+    n = 600
+    toks = ["a", "b", "c", "d", "e"]
+    trn = os.path.join(d, "ref.trn")
+    with open(trn, "w") as f:
+        for i in range(n):
+            words = [toks[(i * 7 + j * 3) % 5] for j in range(1 + i % 4)]
+            f.write("%s (utt%04d)\n" % (" ".join(words), i))
+    t2i = os.path.join(d, "token2id.txt")
+    with open(t2i, "w") as f:
+        for i, t in enumerate(toks):
+            f.write("%s %d\n" % (t, i + 3))
+    outs = {}
+    for name, extra in (("serial", ["--num-workers", "0"]), ("pool", ["--num-workers", "4", "--mp-chunk-size", "1"])):
+        out = os.path.join(d, name)
+        try:
+            with warnings.catch_warnings():
+                warnings.simplefilter("ignore")
+                cl.trn_to_torch_token_data_dir([trn, t2i, out] + extra)
+        except BaseException as ex:
+            ctx.violation(dict(site="trn-to-torch-token-data-dir", kind="exception_real_pool"),
+                          "%s run over %d utterances raised %r" % (name, n, ex), dict(type="stress_real_pool", mode=name))
+            return
+        outs[name] = {fn: torch.load(os.path.join(out, fn)).tolist() for fn in sorted(os.listdir(out))}
+    ctx.case(key=("stress_real_pool", n), nontrivial=True, n=n)
+    ctx.count("stress_real_pool_utterances", n)
+    if outs["serial"] != outs["pool"]:
+        diff = [fn for fn in sorted(set(outs["serial"]) | set(outs["pool"])) if outs["serial"].get(fn) != outs["pool"].get(fn)]
+        ctx.violation(dict(site="trn-to-torch-token-data-dir", kind="worker_dependence_real_pool"),
+                      "%d of %d output files differ between --num-workers 0 and 4 real workers (chunk size 1), e.g. %r" % (len(diff), n, diff[:3]),
+                      dict(type="stress_real_pool", differing=diff[:10]))
 
 
 def replay(ctx, case):
